@@ -352,6 +352,9 @@ static Oracle solve(const Scene &s) {
     return o;
 }
 
+static long g_astarEvery = 1;          // thorough tier: raw graph dump for every 2nd case only (keeps the run inside its budget)
+static long g_caseIdx = 0;
+static void dumpGraphRaw(Router *router, ConnRef *conn);
 static void printPoly(const char *key, const Polygon &p) {
     printf("%s", key);
     for (size_t i = 0; i < p.size(); ++i) printf(" %s %s", H(p.at(i).x).c_str(), H(p.at(i).y).c_str());
@@ -359,6 +362,7 @@ static void printPoly(const char *key, const Polygon &p) {
 }
 
 static void runScene(long k, const char *tag, const Scene &s) {
+    g_caseIdx = k;
     vh::beginCase(k, tag);
     printf("pen %s\nbuf %s\n", H(s.pen).c_str(), H(s.buf).c_str());
     for (const R4 &r : s.rects) printf("rect %s %s %s %s\n", H(r.x0).c_str(), H(r.y0).c_str(), H(r.x1).c_str(), H(r.y1).c_str());
@@ -389,6 +393,8 @@ static void runScene(long k, const char *tag, const Scene &s) {
     router->processTransaction();
     printPoly("route", conn->route());
     printPoly("display", conn->displayRoute());
+    fflush(stdout);
+    dumpGraphRaw(router, conn);
     delete router;
     vh::endCase();
 }
@@ -606,6 +612,99 @@ static VGOut analyseGraph(Router *router, ConnRef *conn, double pen) {
     return out;
 }
 
+// ---- raw dump of the orthogonal visibility graph for the A* model (Model/AStar.lean, driver: checkAStar):
+// every vertex (point, orthogVisPropFlags, isConnPt), every non-disabled entry of orthogVisList in LIST ORDER
+// with EdgeInf::getDist() and isDummyConnection().  (list::sort in the search is stable and only entries in
+// the same direction compare equal, so their relative order is the insertion order before and after routing.)
+static void dumpGraphRaw(Router *router, ConnRef *conn) {
+    if (g_caseIdx % g_astarEvery != 0) return;
+    std::vector<VertInf *> vs;
+    std::map<VertInf *, int> id;
+    for (VertInf *v = router->vertices.connsBegin(); v != router->vertices.end(); v = v->lstNext) {
+        id[v] = (int) vs.size(); vs.push_back(v);
+    }
+    int n = (int) vs.size();
+    if (n > 400) { printf("agskip %d\n", n); return; }     // the list-based Lean model is quadratic
+    std::string t;
+    t += "agx"; for (int u = 0; u < n; ++u) ap(t, " %s", H(vs[u]->point.x).c_str()); t += "\n";
+    t += "agy"; for (int u = 0; u < n; ++u) ap(t, " %s", H(vs[u]->point.y).c_str()); t += "\n";
+    t += "agf"; for (int u = 0; u < n; ++u) ap(t, " %u", vs[u]->orthogVisPropFlags); t += "\n";
+    t += "agc"; for (int u = 0; u < n; ++u) ap(t, " %d", vs[u]->id.isConnPt() ? 1 : 0); t += "\n";
+    t += "aga";
+    for (int u = 0; u < n; ++u) {
+        int deg = 0;
+        for (EdgeInfList::const_iterator e = vs[u]->orthogVisList.begin(); e != vs[u]->orthogVisList.end(); ++e)
+            if (!(*e)->isDisabled()) ++deg;
+        ap(t, " %d", deg);
+        for (EdgeInfList::const_iterator e = vs[u]->orthogVisList.begin(); e != vs[u]->orthogVisList.end(); ++e) {
+            if ((*e)->isDisabled()) continue;
+            ap(t, " %d %s %d", id[(*e)->otherVert(vs[u])], H((*e)->getDist()).c_str(), (*e)->isDummyConnection() ? 1 : 0);
+        }
+    }
+    t += "\n";
+    ap(t, "ags %d %d\n", id[conn->src()], id[conn->dst()]);
+    fputs(t.c_str(), stdout);
+}
+
+// ---- kernels of the search called directly (the copies in this translation unit, compiled from the same
+// makepath.cpp): cost() on point triples (orthogonal connector, no clusters, not in the crossing stage) and
+// ANodeCmp on (f, timeStamp) pairs around its 1e-7 threshold.
+static void kernelAStar(long k, vh::Rng r, int n) {
+    vh::beginCase(k, "astar-kernels");
+    Router *router = new Router(OrthogonalRouting);
+    const double pens[4] = {10, 50, 200, 0};
+    for (int i = 0; i < n; ++i) {
+        double pen = pens[r.range(0, 3)];
+        double rev = r.coin(1, 3) ? (double) r.range(1, 9) : 0.0;
+        router->setRoutingParameter(segmentPenalty, pen);
+        router->setRoutingParameter(reverseDirectionPenalty, rev);
+        Point cs((double) r.range(-3, 3), (double) r.range(-3, 3)), cd((double) r.range(-3, 3), (double) r.range(-3, 3));
+        ConnRef *conn = new ConnRef(router, ConnEnd(cs), ConnEnd(cd));
+        conn->setRoutingType(ConnType_Orthogonal);
+        int m = (int) r.range(1, 4);
+        Point p1((double) r.range(-m, m), (double) r.range(-m, m)), p2((double) r.range(-m, m), (double) r.range(-m, m)),
+              p3((double) r.range(-m, m), (double) r.range(-m, m));
+        if (r.coin(3, 4)) {                        // axis-parallel hops (what the orthogonal search sees)
+            if (r.coin()) p2.x = p1.x; else p2.y = p1.y;
+            if (r.coin()) p3.x = p2.x; else p3.y = p2.y;
+        }
+        if (r.coin(1, 4)) { p1.x /= 2; p3.y /= 2; }
+        bool have1 = !r.coin(1, 6);
+        double dist = std::fabs(p3.x - p2.x) + std::fabs(p3.y - p2.y);
+        if (r.coin(1, 5)) dist = (double) r.range(0, 40) / 4;
+        VertInf *v1 = new VertInf(router, VertID(0, 0), p1, false);
+        VertInf *v2 = new VertInf(router, VertID(0, 1), p2, false);
+        VertInf *v3 = new VertInf(router, VertID(0, 2), p3, false);
+        ANode n1(v1, 1);
+        bool ends = conn->src() && conn->dst();
+        if (!ends) { rev = 0; router->setRoutingParameter(reverseDirectionPenalty, 0); }
+        printf("ck %d %s %s %s %s %s %s %s %s %s %s %s %s %s", have1 ? 1 : 0, H(p1.x).c_str(), H(p1.y).c_str(), H(p2.x).c_str(),
+               H(p2.y).c_str(), H(p3.x).c_str(), H(p3.y).c_str(), H(dist).c_str(), H(pen).c_str(), H(rev).c_str(),
+               H(cs.x).c_str(), H(cs.y).c_str(), H(cd.x).c_str(), H(cd.y).c_str());
+        fflush(stdout);
+        double c = cost(conn, dist, v2, v3, have1 ? &n1 : nullptr);
+        printf(" %s\n", H(c).c_str());
+        delete v1; delete v2; delete v3;
+        router->deleteConnector(conn);
+    }
+    delete router;
+    for (int i = 0; i < n; ++i) {
+        ANode a, b;
+        a.f = (double) r.range(0, 400) / 4;
+        switch (r.range(0, 4)) {
+        case 0: b.f = a.f; break;
+        case 1: b.f = a.f + std::ldexp((double) r.range(-64, 64), -29); break;      // around 1e-7 = 53.7 * 2^-29
+        case 2: b.f = a.f + (double) r.range(-8, 8) / 4; break;
+        case 3: b.f = a.f + (r.coin() ? 1e-7 : -1e-7); break;
+        default: b.f = (double) r.range(0, 400) / 4;
+        }
+        a.timeStamp = (int) r.range(1, 6); b.timeStamp = r.coin(1, 3) ? a.timeStamp : (int) r.range(1, 6);
+        ANodeCmp cmp;
+        printf("cmp %s %d %s %d %d\n", H(a.f).c_str(), a.timeStamp, H(b.f).c_str(), b.timeStamp, cmp(&a, &b) ? 1 : 0);
+    }
+    vh::endCase();
+}
+
 static Router *buildRouter(const Scene &s, ConnRef *&conn) {
     Router *router = new Router(OrthogonalRouting);
     router->setRoutingParameter(segmentPenalty, s.pen);
@@ -632,6 +731,7 @@ static void runSceneVG(long k, const char *strictTag, const char *lossyTag, cons
         delete r0;
         if (s.sx == s.tx || s.sy == s.ty || !pre.reach || pre.popt > pre.gopt) tag = lossyTag;
     }
+    g_caseIdx = k;
     vh::beginCase(k, tag);
     printf("pen %s\nbuf %s\n", H(s.pen).c_str(), H(s.buf).c_str());
     for (const R4 &r : s.rects) printf("rect %s %s %s %s\n", H(r.x0).c_str(), H(r.y0).c_str(), H(r.x1).c_str(), H(r.y1).c_str());
@@ -644,6 +744,7 @@ static void runSceneVG(long k, const char *strictTag, const char *lossyTag, cons
     fflush(stdout);
     VGOut o = analyseGraph(router, conn, s.pen);
     fputs(o.text.c_str(), stdout);
+    dumpGraphRaw(router, conn);
     delete router;
     vh::endCase();
 }
@@ -651,6 +752,7 @@ static void runSceneVG(long k, const char *strictTag, const char *lossyTag, cons
 int main(int argc, char **argv) {
     vh::Args a = vh::parseArgs(argc, argv);
     bool thorough = a.tier == "thorough";
+    g_astarEvery = thorough ? 2 : 1;
     long k = 0;
     if (a.want(k)) kernelGrid(k);
     ++k;
@@ -709,5 +811,8 @@ int main(int argc, char **argv) {
         Scene s = genMulti(r, maxRects);
         runScene(k, "scene-multi", s);
     }
+    // kernels of the A* search itself (appended last: earlier case indices stay stable)
+    long nak = thorough ? 6 : 2;
+    for (long c = 0; c < nak; ++c, ++k) if (a.want(k)) kernelAStar(k, vh::caseRng(a.seed, k), 400);
     return 0;
 }
